@@ -115,10 +115,10 @@ theorem rfc3339Tail_utc (date : Int) (h mi s milli : Nat) (hh : h < 24) (hmi : m
   have hsec : h * 3600 + mi * 60 + s < 86400 := by omega
   by_cases h0 : milli = 0
   · subst h0
-    simp [rfc3339Tail, autoSi, bind, Except.bind, hr, h60, hmin, tz_utc_colon, validOffset, subOffset_zero _ _ _ hsec hyr]
+    simp [rfc3339Tail, fracPart, autoSi, bind, Except.bind, hr, h60, hmin, tz_utc_colon, validOffset, subOffset_zero _ _ _ hsec hyr]
   · have hb : (milli == 0) = false := by simp [h0]
     have e : milli / 100 * 100 + milli / 10 % 10 * 10 + milli % 10 = milli := by omega
-    simp only [rfc3339Tail, autoSi, hb, pad3_spec milli hml, Bool.false_eq_true, if_false, List.cons_append, List.nil_append,
+    simp only [rfc3339Tail, fracPart, autoSi, hb, pad3_spec milli hml, Bool.false_eq_true, if_false, List.cons_append, List.nil_append,
       nanosecond, number_3_stop _ _ _ (by omega : milli / 100 < 10) (by omega : milli / 10 % 10 < 10) (by omega : milli % 10 < 10) '+' _ (by decide) 9 (by omega), e]
     simp [bind, Except.bind, hr, h60, hmin, tz_utc_colon, validOffset, subOffset_zero _ _ _ hsec hyr, isDigit, digit?]
 
@@ -160,6 +160,85 @@ theorem rfc3339Utc_rfc3339 (t : DT) (hms : t.ms < 86400000) (h0 : 0 ≤ t.year) 
   have hy : ((t.year.toNat : Nat) : Int) = t.year := by omega
   rw [rfc3339_text t hms h0 h1, rfc3339Utc_head _ _ _ _ _ _ (by omega) (by omega) (by omega) (by omega) (by omega) (by omega),
     hy, if_pos hval, hdays, rfc3339Tail_utc _ _ _ _ _ hh hmi hs hml hyr, hsec]
+
+/-! ### RFC 3339 with an explicit offset and leap seconds -/
+
+/-- `±hh:mm` -/
+def offsetText (neg : Bool) (oh om : Nat) : Str :=
+  (if neg then '-' else '+') :: (oh / 10).digitChar :: (oh % 10).digitChar :: ':' :: (om / 10).digitChar :: [(om % 10).digitChar]
+
+theorem twoDigits_dc (a b : Nat) (ha : a < 10) (hb : b < 10) (r : Str) :
+    twoDigits (a.digitChar :: b.digitChar :: r) = .ok (a, b) := by
+  have : ¬ utf8Len (a.digitChar :: b.digitChar :: r) < 2 := by
+    have := length_le_utf8Len (a.digitChar :: b.digitChar :: r); simp at this; omega
+  simp [twoDigits, this, digit_dc a ha, digit_dc b hb]
+
+theorem timezoneOffset_text (neg : Bool) (oh om : Nat) (hoh : oh < 100) (hom : om < 60) :
+    timezoneOffset (offsetText neg oh om) .strict true false true =
+      .ok ([], if neg then -((oh * 3600 + om * 60 : Nat) : Int) else ((oh * 3600 + om * 60 : Nat) : Int)) := by
+  have e1 : oh / 10 * 10 + oh % 10 = oh := by omega
+  have e2 : om / 10 * 10 + om % 10 = om := by omega
+  have h5 : om / 10 ≤ 5 := by omega
+  have hl : ¬ utf8Len [(om / 10).digitChar, (om % 10).digitChar] < 2 := by
+    have := length_le_utf8Len [(om / 10).digitChar, (om % 10).digitChar]; simp at this; omega
+  cases neg
+  · simp [offsetText, timezoneOffset, twoDigits_dc _ _ (by omega : oh / 10 < 10) (by omega : oh % 10 < 10), consumeColon, scanChar,
+      twoDigits_dc _ _ (by omega : om / 10 < 10) (by omega : om % 10 < 10), hl, h5, e1, e2]
+  · simp [offsetText, timezoneOffset, twoDigits_dc _ _ (by omega : oh / 10 < 10) (by omega : oh % 10 < 10), consumeColon, scanChar,
+      twoDigits_dc _ _ (by omega : om / 10 < 10) (by omega : om % 10 < 10), hl, h5, e1, e2]
+
+theorem days_range0 (y : Int) (m d : Nat) (h : ValidMD y m d) (hy0 : 0 ≤ y) (hy2 : y ≤ 9999) :
+    -719528 ≤ daysFromCivil y m d ∧ daysFromCivil y m d ≤ 2932896 := by
+  have b := days_bounds y m d h
+  have l := (days_year_mono 0 y hy0).1
+  have u := (days_year_mono y 9999 hy2).2
+  have e1 : daysFromCivil 0 1 1 = -719528 := by decide
+  have e2 : daysFromCivil 9999 12 31 = 2932896 := by decide
+  omega
+
+theorem yearInRange_near (z : Int) (h1 : -3257813 ≤ z) (h2 : z ≤ 3257812) : yearInRange z = true := by
+  obtain ⟨a, b⟩ := year_range_of_days z h1 h2
+  simp [yearInRange, a, b]
+
+/-- the date-time `off` seconds earlier (what `checked_sub_offset` computes) -/
+def shiftNDT (t : NDT) (off : Int) : NDT :=
+  ⟨t.days + ((t.time.secs : Int) - off) / 86400, ⟨(((t.time.secs : Int) - off) % 86400).toNat, t.time.nano⟩⟩
+
+theorem shiftNDT_millis (t : NDT) (off : Int) : (shiftNDT t off).millis = t.millis - off * 1000 := by
+  simp only [shiftNDT, NDT.millis, NDT.timestamp]
+  have : ((((t.time.secs : Int) - off) % 86400).toNat : Int) = ((t.time.secs : Int) - off) % 86400 := by omega
+  rw [this]; omega
+
+theorem subOffset_shift (t : NDT) (off : Int) (h : yearInRange (shiftNDT t off).days = true) :
+    subOffset t off = some (shiftNDT t off) := by
+  simp only [shiftNDT] at h
+  simp [subOffset, shiftNDT, h]
+
+/-- no fraction, an explicit offset `±hh:mm`, seconds up to 60 (a leap second): the UTC instant -/
+theorem rfc3339Tail_offset (date : Int) (h mi s : Nat) (hd1 : -719528 ≤ date) (hd2 : date ≤ 2932896)
+    (hh : h < 24) (hmi : mi < 60) (hs : s ≤ 60) (neg : Bool) (oh om : Nat) (hoh : oh < 24) (hom : om < 60) :
+    rfc3339Tail date h mi s (offsetText neg oh om) =
+      .ok (shiftNDT ⟨date, ⟨h * 3600 + mi * 60 + min s 59, if s = 60 then 1000000000 else 0⟩⟩
+        (if neg then -((oh * 3600 + om * 60 : Nat) : Int) else ((oh * 3600 + om * 60 : Nat) : Int))) := by
+  have hr : ¬ (h ≥ 24 ∨ mi ≥ 60 ∨ s > 60) := by omega
+  have hto := timezoneOffset_text neg oh om (by omega) hom
+  have hoff : (oh * 3600 + om * 60 : Nat) < 86400 := by omega
+  have hms : min s 59 ≤ 59 := by omega
+  have hm1 : ∀ r : Str, fracPart ('+' :: r) = .ok ('+' :: r, 0) := fun r => rfl
+  have hm2 : ∀ r : Str, fracPart ('-' :: r) = .ok ('-' :: r, 0) := fun r => rfl
+  cases neg
+  · simp only [offsetText, Bool.false_eq_true, if_false] at hto
+    have hv : validOffset ((oh * 3600 + om * 60 : Nat) : Int) = true := by simp [validOffset]; omega
+    have hsub := subOffset_shift ⟨date, ⟨h * 3600 + mi * 60 + min s 59, if s = 60 then 1000000000 else 0⟩⟩
+      ((oh * 3600 + om * 60 : Nat) : Int) (yearInRange_near _ (by simp only [shiftNDT]; omega) (by simp only [shiftNDT]; omega))
+    simp only [rfc3339Tail, offsetText, Bool.false_eq_true, if_false, bind, Except.bind, hr, hto, hv,
+      Bool.not_true, ne_eq, not_true_eq_false, if_true, Nat.add_zero, hsub, hm1]
+  · simp only [offsetText, if_true] at hto
+    have hv : validOffset (-((oh * 3600 + om * 60 : Nat) : Int)) = true := by simp [validOffset]; omega
+    have hsub := subOffset_shift ⟨date, ⟨h * 3600 + mi * 60 + min s 59, if s = 60 then 1000000000 else 0⟩⟩
+      (-((oh * 3600 + om * 60 : Nat) : Int)) (yearInRange_near _ (by simp only [shiftNDT]; omega) (by simp only [shiftNDT]; omega))
+    simp only [rfc3339Tail, offsetText, if_true, bind, Except.bind, hr, hto, hv,
+      Bool.not_true, ne_eq, not_true_eq_false, if_false, Nat.add_zero, hsub, hm2, Bool.false_eq_true]
 
 /-! ### RFC 2822 -/
 
@@ -323,5 +402,100 @@ theorem rfc2822Utc_rfc2822 (t : DT) (hms : t.ms < 86400000) (h0 : 0 ≤ t.year) 
   simp only [Parsed.toDatetimeUtc, Parsed.toNaiveDatetime, hd, ht]
   have hsec2 : t.ms / 1000 < 86400 := by omega
   simp [validOffset, h60, hmin, hsec, subOffset_zero _ _ _ hsec2 hyr]
+
+/-! ### fractions of any length -/
+
+/-- value of a digit list continuing from `acc` -/
+def digitsVal (ds : List Nat) (acc : Nat) : Nat := ds.foldl (fun a d => a * 10 + d) acc
+/-- the text of a digit list -/
+def digitsText (ds : List Nat) : Str := ds.map Nat.digitChar
+
+/-- `rest` does not continue the digits -/
+def NoDigitHead (rest : Str) : Prop := ∀ c r, rest = c :: r → digit? c = none
+
+theorem numberGo_digits (min : Nat) (ds : List Nat) (hds : ∀ d ∈ ds, d < 10) (rest : Str) (hrest : NoDigitHead rest) :
+    ∀ (i acc : Nat), i + ds.length ≤ 9 → min ≤ i + ds.length → acc < 10 ^ i →
+      numberGo min 9 (digitsText ds ++ rest) i acc = .ok (rest, digitsVal ds acc) := by
+  induction ds with
+  | nil =>
+    intro i acc hi hmin hacc
+    simp only [digitsText, List.map_nil, List.nil_append, digitsVal, List.foldl_nil]
+    cases rest with
+    | nil => rfl
+    | cons c r => exact numberGo_nondigit _ _ _ _ _ _ (hrest c r rfl) (by simpa using hmin)
+  | cons d ds ih =>
+    intro i acc hi hmin hacc
+    have hd : d < 10 := hds d (by simp)
+    simp only [List.length_cons] at hi hmin
+    have hp : 10 ^ i ≤ 10 ^ 8 := Nat.pow_le_pow_right (by omega) (by omega)
+    have hs : 10 ^ (i + 1) = 10 ^ i * 10 := Nat.pow_succ ..
+    simp only [digitsText, List.map_cons, List.cons_append, digitsVal, List.foldl_cons]
+    rw [numberGo_dc _ _ d hd _ _ _ (by omega) (by simp only [i64Max]; omega)]
+    exact ih (fun x hx => hds x (by simp [hx])) (i + 1) (acc * 10 + d) (by omega) (by omega) (by omega)
+
+theorem digitsVal_lt (ds : List Nat) (hds : ∀ d ∈ ds, d < 10) : ∀ acc i, acc < 10 ^ i → digitsVal ds acc < 10 ^ (i + ds.length) := by
+  induction ds with
+  | nil => intro acc i h; simpa [digitsVal] using h
+  | cons d ds ih =>
+    intro acc i h
+    have hd : d < 10 := hds d (by simp)
+    have hs : 10 ^ (i + 1) = 10 ^ i * 10 := Nat.pow_succ ..
+    have := ih (fun x hx => hds x (by simp [hx])) (acc * 10 + d) (i + 1) (by omega)
+    simp only [digitsVal, List.foldl_cons, List.length_cons] at this ⊢
+    have e : i + 1 + ds.length = i + (ds.length + 1) := by omega
+    rw [e] at this; exact this
+
+/-- `scan::nanosecond` on 1–9 fraction digits: scaled to nanoseconds -/
+theorem nanosecond_short (ds : List Nat) (hds : ∀ d ∈ ds, d < 10) (h1 : 1 ≤ ds.length) (h9 : ds.length ≤ 9)
+    (rest : Str) (hrest : NoDigitHead rest) :
+    nanosecond (digitsText ds ++ rest) = .ok (rest, digitsVal ds 0 * 10 ^ (9 - ds.length)) := by
+  have hn : number (digitsText ds ++ rest) 1 9 = .ok (rest, digitsVal ds 0) := by
+    rw [number_def _ _ _ (by simp [digitsText]; omega)]
+    exact numberGo_digits 1 ds hds rest hrest 0 0 (by omega) (by omega) (by simp)
+  have hdrop : rest.dropWhile isDigit = rest := by
+    cases rest with
+    | nil => rfl
+    | cons c r => simp [List.dropWhile, isDigit, hrest c r rfl]
+  have hl : (digitsText ds ++ rest).length - rest.length = ds.length := by simp [digitsText]
+  simp only [nanosecond, hn, hdrop, hl]
+
+/-- more than nine digits: the tenth and later digits are skipped — truncation, not rounding -/
+theorem nanosecond_long (ds more : List Nat) (hds : ∀ d ∈ ds, d < 10) (hm : ∀ d ∈ more, d < 10) (h9 : ds.length = 9)
+    (rest : Str) (hrest : NoDigitHead rest) :
+    nanosecond (digitsText (ds ++ more) ++ rest) = .ok (rest, digitsVal ds 0) := by
+  have e : digitsText (ds ++ more) ++ rest = digitsText ds ++ (digitsText more ++ rest) := by simp [digitsText]
+  have hgo : ∀ (xs : List Nat), (∀ d ∈ xs, d < 10) → ∀ (tail : Str) (i acc : Nat), i + xs.length = 9 → acc < 10 ^ i →
+      numberGo 1 9 (digitsText xs ++ tail) i acc = .ok (tail, digitsVal xs acc) := by
+    intro xs
+    induction xs with
+    | nil => intro _ tail i acc hi _; exact numberGo_stop _ _ _ _ _ (by simp at hi; omega)
+    | cons d xs ih =>
+      intro hx tail i acc hi hacc
+      have hd : d < 10 := hx d (by simp)
+      simp only [List.length_cons] at hi
+      have hp : 10 ^ i ≤ 10 ^ 8 := Nat.pow_le_pow_right (by omega) (by omega)
+      have hs : 10 ^ (i + 1) = 10 ^ i * 10 := Nat.pow_succ ..
+      simp only [digitsText, List.map_cons, List.cons_append, digitsVal, List.foldl_cons]
+      rw [numberGo_dc _ _ d hd _ _ _ (by omega) (by simp only [i64Max]; omega)]
+      exact ih (fun x hx' => hx x (by simp [hx'])) tail (i + 1) (acc * 10 + d) (by omega) (by omega)
+  have hn : number (digitsText (ds ++ more) ++ rest) 1 9 = .ok (digitsText more ++ rest, digitsVal ds 0) := by
+    rw [number_def _ _ _ (by simp [digitsText]; omega), e]
+    exact hgo ds hds _ 0 0 (by omega) (by simp)
+  have hdrop : ∀ xs : List Nat, (∀ d ∈ xs, d < 10) → (digitsText xs ++ rest).dropWhile isDigit = rest := by
+    intro xs
+    induction xs with
+    | nil =>
+      intro _
+      cases rest with
+      | nil => rfl
+      | cons c r => simp [digitsText, List.dropWhile, isDigit, hrest c r rfl]
+    | cons d xs ih =>
+      intro hx
+      have hd : d < 10 := hx d (by simp)
+      simp only [digitsText, List.map_cons, List.cons_append, List.dropWhile, isDigit_dc d hd]
+      exact ih (fun x hx' => hx x (by simp [hx']))
+  have hl : (digitsText (ds ++ more) ++ rest).length - (digitsText more ++ rest).length = 9 := by
+    simp [digitsText, h9]
+  simp only [nanosecond, hn, hdrop more hm, hl, Nat.sub_self, Nat.pow_zero, Nat.mul_one]
 
 end Slac.Time
